@@ -55,10 +55,12 @@ def generate(rng, tier, shard, nshards):
                                  site=f"WFSA.{fn}", feat=aops.afeat(A2))
         R = aops.SR[srn]
         w = aops.enc_w(R, aops.us.mk(R, rng.choice([1, 2] if srn.startswith("Sat") else [1])))
-        yield event("wlang", {"sr": srn, "ctor": "lift", "x": rng.choice(["a", "b", ""]), "w": w, "sigma": sig, "L": 2, "cls": cls},
+        yield event("wlang", {"sr": srn, "ctor": "lift", "x": rng.choice(["a", "b", ""]),
+                              "w": w if rng.random() < 0.8 else aops.enc_w(R, R.zero), "sigma": sig, "L": 2, "cls": cls},
                          site="WFSA.lift", feat="ctor")
         xs = [rng.choice(sig) for _ in range(rng.randint(0, 3))]
-        yield event("wlang", {"sr": srn, "ctor": "from_string", "xs": xs, "w": rng.choice([None, w]), "sigma": sig, "L": 3, "cls": cls},
+        z = aops.enc_w(R, R.zero)          # an explicit zero weight is a weight, not "no weight given"
+        yield event("wlang", {"sr": srn, "ctor": "from_string", "xs": xs, "w": rng.choice([None, w, w, z]), "sigma": sig, "L": 3, "cls": cls},
                          site="WFSA.from_string", feat="ctor")
         Xs = [[rng.choice(sig) for _ in range(rng.randint(0, 3))] for _ in range(rng.randint(0, 4))]
         yield event("wlang", {"sr": srn, "ctor": "from_strings", "Xs": Xs, "sigma": sig, "L": 3, "cls": cls},
